@@ -98,6 +98,7 @@ var snippets = []string{
 	"(x: 1, x: 2)", "(x: {a: 1})", "(x: [1, 2])", "(x: null)", "(x: RED)", "(x: 99999999999999999999)", "(x: 1.5e400)", "(x: \"\\u12\")", "(x: \"\\q\")", "(x: \"\"\"block\"\"\")", "(s: $v, n: $v)",
 	"__typename", "__schema { types { name } }", "__type(name: \"O1\") { name }", "id: id", "id: name", "a: allO1 { id } a: allO2 { id }",
 	"f0(x: [1, 2]) f0(x: [1, 2])", "z: id z: id", "z: f0(x: [1]) z: f0(x: [2])", "f0(x: $v) f0(x: $v)", "f0(x: {a: [1]}) f0(x: {a: [1]})", "f0(x: [[1], []]) ... on O1 { f0(x: [[1], []]) }",
+	"(x: [[\x16", "(x: [\x01])", "(x: [[", "(x: {a: [\x7f", "[", "]", "\x16", "\"unterminated", "(x: [\"\\q\"])",
 	"{", "}", "{}", "#comment\n", ",,,", "\ufeff", "\x00", "query", "mutation", "subscription", "fragment", "on",
 }
 
@@ -205,7 +206,30 @@ func TestDocuments(t *testing.T) {
 	rapid.Check(t, func(t *rapid.T) {
 		text, vars := genDoc(t)
 		start := time.Now()
-		stage, parsed, err := pipeline(context.Background(), text, vars)
+		type res struct {
+			stage  string
+			parsed bool
+			err    error
+		}
+		done := make(chan res, 1)
+		go func() {
+			st, pa, e := pipeline(context.Background(), text, vars)
+			done <- res{st, pa, e}
+		}()
+		var stage string
+		var parsed bool
+		var err error
+		select {
+		case r := <-done:
+			stage, parsed, err = r.stage, r.parsed, r.err
+		case <-time.After(30 * time.Second):
+			// the input is still being processed (and may be allocating): report it and stop
+			// this process at once instead of shrinking with a runaway goroutine in the background
+			p := rec.Violate("TestDocuments", map[string]interface{}{"query": text, "vars": vars}, fmt.Sprintf("hang: %d-byte document still running after 30s", len(text)))
+			fmt.Printf("%d-byte document still running after 30s: %q (replay %s)\n", len(text), text, p)
+			rec.Flush()
+			os.Exit(3)
+		}
 		if err != nil {
 			p := rec.Violate("TestDocuments", map[string]interface{}{"query": text, "vars": vars}, "panic: "+err.Error())
 			t.Fatalf("input crashed the pipeline: %v\nquery: %q (replay %s)", err, text, p)
@@ -715,6 +739,23 @@ func TestPinned(t *testing.T) {
 			t.Errorf("%q: %v", text, err)
 		}
 		rec.Case("pinned:"+text, true, "pinned")
+	}
+	// a lexical error right after "[" made the graphql-go parser spin for ever (fixed 4917822)
+	for _, text := range []string{"{A(A:[[\x16", "{a(b:[\x16", "{ allO1(x: [1, [\"\\q\"]]) { id } }", "query Q($v: [int64] = [[\x00]) { allO1 { id } }", "{ a(b: {c: [\x7f}) }"} {
+		text := text
+		done := make(chan error, 1)
+		go func() { _, _, err := pipeline(context.Background(), text, nil); done <- err }()
+		select {
+		case err := <-done:
+			if err != nil {
+				rec.Violate("TestPinned-lex", map[string]interface{}{"query": text}, err.Error())
+				t.Errorf("%q: %v", text, err)
+			}
+		case <-time.After(10 * time.Second):
+			rec.Violate("TestPinned-lex", map[string]interface{}{"query": text}, fmt.Sprintf("%d-byte document still being parsed after 10s", len(text)))
+			t.Errorf("%q (%d bytes) does not finish within 10s", text, len(text))
+		}
+		rec.Case("pinned-lex:"+text, true, "pinned")
 	}
 	for _, kind := range []string{"spread", "spread3", "union-spread"} {
 		text := bomb(kind, 30)
